@@ -381,7 +381,7 @@ func isConversion(info *types.Info, call *ast.CallExpr) bool {
 // intEnv carries what the integer normaliser needs about the enclosing method.
 type intEnv struct {
 	pk   *packages.Package
-	recv types.Object      // receiver variable, for len(recv)
+	recv types.Object              // receiver variable, for len(recv)
 	loc  map[types.Object]ast.Expr // single-assignment locals (x := expr)
 }
 
